@@ -238,8 +238,15 @@ func c13BuildSpecials() {
 		c13Call("hJoin", c13Str("k1"), c13Str("zed")), c13Call("hJoin"), c13Call("hSum", c13Int(1), c13Int(2), c13Int(3)), c13Call("hSum", n1),
 		c13Call("hCtx", s1), c13Call("hCtxSub", n1, n2), c13Call("hCtxJoin", s1, c13Str("k1")), c13Call("hCtxJoin", s1), c13Call("hCtxJoin"), c13Call("hCtxSum", n1, n2, c13Int(3)), c13Call("hCtxSum", n1), c13Call("hErrS", s1), c13Call("hErrI", n1), c13Call("hFSub", c13P("f1"), c13Lit("f", "0.5")),
 		c13Call("hUSum", c13Int(1), c13Int(2)), c13Call("hSub64", c13P("i64"), c13Int(2)), c13Call("hRep", s1, c13Int(2)), c13Call("hRep", s1, c13P("n0")),
+		c13Call("hItemTitle", c13P("st")), c13Call("hPItemCount", c13P("ps")),
 	} {
 		add("call/custom", e)
+	}
+	for _, e := range []c13E{
+		c13Bin("==", c13Call("hItemTitle", c13P("st")), c13Str("<T1>")), c13Bin("+", c13Call("hItemTitle", c13P("st")), c13Str("k1")), c13Bin("+", c13Call("hPItemCount", c13P("ps")), c13Int(1)),
+		c13Bin(">", c13Call("hPItemCount", c13P("ps")), c13P("n1")), c13Tern(c13P("bt"), c13Call("hItemTitle", c13P("st")), c13Str("zed")), c13Bin("&&", c13P("bt"), c13Bin("!=", c13Call("hItemTitle", c13P("st")), c13Str("zed"))),
+	} {
+		add("call-in-op/struct-arg", e)
 	}
 	// calls as operands of documented operators
 	type cl struct {
